@@ -54,7 +54,7 @@ def run_case(case):
         return {"seq": "QueryGroups", "cfg": cfg, "ev": ev, "out": {"exc": out["exc"], "ret": ret}, "case": case}
     if kind == "sg":
         # unit 1 is the addressed unit (short 5); unit 2 a bystander that may share a group / be unaddressed
-        gear = [Gear(short=5, groups=case["cur"]), Gear(short=case["s2"], groups=case["cur2"])]
+        gear = [Gear(short=case.get("s1", 5), groups=case["cur"]), Gear(short=case["s2"], groups=case["cur2"])]
         cfg = _cfg(gear)
         bus = GearBus(gear)
         dk, dn = case["dest"]
@@ -111,7 +111,7 @@ def cases(tier, seed):
     else:
         pairs = [(spread(a), spread(b) << 1 | (b & 1)) for a in range(0, 256, 5) for b in range(0, 256, 7)]
     pairs += [(rng.getrandbits(16), rng.getrandbits(16)) for _ in range(2000 if tier == "quick" else 40000)]
-    dests = [("short", 5), ("int", 5), ("bcast", 0)] + [("group", g) for g in (0, 3, 15)]
+    dests = [("short", 5), ("int", 5), ("bcast", 0), ("unaddr", 0)] + [("group", g) for g in (0, 3, 15)]
     for ix, (cur, want) in enumerate(pairs):
         dk, dn = dests[ix % len(dests)]
         curb = bits(cur)
@@ -119,7 +119,11 @@ def cases(tier, seed):
             curb = sorted(set(curb) | {dn})          # the unit must be reachable through the group
         s2 = rng.choice([6, 255])
         cur2 = bits(rng.getrandbits(16))
-        cs.append({"kind": "sg", "cur": curb, "want": bits(want), "dest": [dk, dn], "s2": s2, "cur2": cur2})
+        c = {"kind": "sg", "cur": curb, "want": bits(want), "dest": [dk, dn], "s2": s2, "cur2": cur2}
+        if dk == "unaddr":
+            # gear without a short address: none, one or both of the two units
+            c["s1"] = rng.choice([5, 255, 255])
+        cs.append(c)
     # adversarial streams
     a1 = [["none", 0], ["err", 255], ["val", 0], ["val", 1], ["val", 6], ["val", 254], ["val", 255]]
     an = [["none", 0], ["err", 255], ["val", 0], ["val", 1], ["val", 6], ["val", 253], ["val", 254]]
